@@ -12,6 +12,8 @@ import json
 import os
 import re
 import sys
+
+sys.dont_write_bytecode = True
 import traceback
 
 sys.path.insert(0, os.path.dirname(os.path.abspath(__file__)))
@@ -683,6 +685,9 @@ def run(repo, outdir, quiet=False):
         oknames = [r['name'] for r in rs if r['status'] == 'ok']
         text.append('/-- names of the successfully translated items of this module -/')
         text.append('def itemNames : List String := [%s]\n' % ', '.join(json.dumps(n) for n in oknames))
+        text.append('/-- the successfully translated items of this module, by name -/')
+        text.append('def items : List (String × Prog) := [%s]\n'
+                    % ', '.join('(%s, %s)' % (json.dumps(n), n) for n in oknames))
         text.append('end Dalek.Gen.%s\n' % mod.name)
         p = os.path.join(outdir, mod.name + '.lean')
         if write_if_changed(p, '\n'.join(text)):
